@@ -41,6 +41,16 @@ pub async fn start_with_config(
     Ok((agent, bookie, transport, handles))
 }
 
+/// The production start-up path, exposed to the simulator.
+#[cfg(feature = "verif")]
+pub async fn verif_run(
+    agent: Agent,
+    opts: AgentOptions,
+    pconf: PerfConfig,
+) -> eyre::Result<(Bookie, Vec<JoinHandle<()>>)> {
+    run(agent, opts, pconf).await
+}
+
 async fn run(
     agent: Agent,
     opts: AgentOptions,
@@ -181,7 +191,11 @@ async fn run(
                     info!(%actor_id, %version, "found fully buffered, unapplied, changes! scheduling apply");
                     let tx_apply = agent.tx_apply().clone();
                     let version = *version;
+                    #[cfg(feature = "verif")]
+                    let verif_pending = klukai_types::verif::PendingGuard::new();
                     tokio::spawn(async move {
+                        #[cfg(feature = "verif")]
+                        let _verif_pending = verif_pending;
                         if let Err(e) = tx_apply.send((actor_id, version)).await {
                             error!("could not schedule buffered changes application: {e}");
                         }
